@@ -465,22 +465,23 @@ ResolveName ==
   /\ xname' = XName(SpaceOf(c.ns), c.el.elem)
   /\ start' = StartAttrs(c)
   /\ UNCHANGED <<c, env, out, dom, loc, rloc, result, slice>>
-\* encoding/xml: the descriptor struct's fields are searched for one that takes the element; an element no field
-\* takes is skipped (nothing of it is stored)
-MatchField ==
-  /\ pc = "match"
-  /\ IF Takes(FieldTag(c.el), xname)
-       THEN pc' = (IF ChecksFirstAttribute THEN "checkStart" ELSE "decode") /\ slice' = c.el.elem /\ UNCHANGED <<loc, rloc, result>>
-       ELSE pc' = "done" /\ slice' = "none" /\ loc' = AbsentV /\ rloc' = AbsentV /\ result' = "ok"
-  /\ UNCHANGED <<c, env, out, dom, xname, start>>
-
 \* metadata.go:324 / :362   d.DecodeElement(aux, &start): encoding/xml fills the attr fields of the endpoint struct
 \* from the start element - each field from the LAST attribute it takes (FieldVal)
-DecodeAttrs ==
-  /\ pc = "decode"
-  /\ loc' = FieldVal(start, "Location") /\ rloc' = FieldVal(start, "ResponseLocation")
-  /\ IF ChecksFirstAttribute THEN pc' = "done" /\ result' = "ok"        \* the deviation has checked already
-                              ELSE pc' = "checkLoc" /\ UNCHANGED result
+DecodeAttrs == loc' = FieldVal(start, "Location") /\ rloc' = FieldVal(start, "ResponseLocation")
+\* encoding/xml: the descriptor struct's fields are searched for one that takes the element; an element no field
+\* takes is skipped (nothing of it is stored).  The element a field takes is handed to its UnmarshalXML, whose first
+\* act (in the implementation) is DecodeAttrs - one transition, the check steps follow; with the deviation
+\* ChecksFirstAttribute the check on the start element comes in between (CheckStartElement, then DecodeLate).
+MatchField ==
+  /\ pc = "match"
+  /\ IF ~Takes(FieldTag(c.el), xname)
+       THEN pc' = "done" /\ slice' = "none" /\ loc' = AbsentV /\ rloc' = AbsentV /\ result' = "ok" /\ start' = <<>>
+       ELSE IF ChecksFirstAttribute
+       THEN pc' = "checkStart" /\ slice' = c.el.elem /\ UNCHANGED <<loc, rloc, result, start>>
+       ELSE pc' = "checkLoc" /\ slice' = c.el.elem /\ DecodeAttrs /\ start' = <<>> /\ UNCHANGED result   \* the start element is consumed
+  /\ UNCHANGED <<c, env, out, dom, xname>>
+DecodeLate ==          \* deviation only: the struct is decoded after the check, nothing looks at it any more
+  /\ pc = "decode" /\ DecodeAttrs /\ pc' = "done" /\ result' = "ok"
   /\ UNCHANGED <<c, env, out, dom, xname, slice, start>>
 \* deviation ChecksFirstAttribute: checkEndpointLocation is applied to the start element - to the FIRST attribute whose
 \* local name is Location (a missing one is checked as ""), then to the first one named ResponseLocation (skipped when
@@ -521,7 +522,7 @@ CheckResponseLocation ==
             /\ rloc' = (IF r.v = Blank /\ c.el.kind = "IE" THEN AbsentV ELSE r.v)
   /\ UNCHANGED <<c, env, out, dom, loc, xname, slice, start>>
 
-Next == DoRender \/ DoTokenize \/ ResolveName \/ MatchField \/ DecodeAttrs \/ CheckStartElement \/ CheckLocation \/ CheckResponseLocation
+Next == DoRender \/ DoTokenize \/ ResolveName \/ MatchField \/ CheckStartElement \/ DecodeLate \/ CheckLocation \/ CheckResponseLocation
 Spec == Init /\ [][Next]_vars
 
 (***************************************************************************)
